@@ -64,7 +64,7 @@ theorem c08_listMerge_level (n : Nat) {sf of : Flags} (hs : flagsPlain sf = true
     (ho : c08_docFlags of = true) (scs : List (Key × Node)) (env : Env) (k : Key) (ks : List Key)
     (v : Scalar) (i : Nat) (hi : validateIndex scs.length true k = some i) :
     mergeF (n + 1) (.comp sf .list scs) (c08_nest of env (k :: ks) v) =
-      match mergeStep (mergeF n) sf .list scs (k, c08_nest (c08_inFlags env) env ks v) with
+      match mergeStep (mergeF n) sf .list [] scs (k, c08_nest (c08_inFlags env) env ks v) with
       | .error e => .error e
       | .ok scs' => .ok (propagate (.comp (replaceSelfFlags sf of) .list scs'), true) := by
   have hf := c08_filter_nest (.comp sf .list scs) env v (k :: ks) [] of
@@ -72,7 +72,7 @@ theorem c08_listMerge_level (n : Nat) {sf of : Flags} (hs : flagsPlain sf = true
   simp only [c08_nest] at hf
   simp only [c08_nest, listMerge, hf, CompKind.isDictFam, c08_eDel_doc ho, listKeysValid, hi,
     Bool.not_true, Bool.and_false, Bool.false_eq_true, if_false, compMerge, mergeLoop]
-  cases mergeStep (mergeF n) sf .list scs (k, c08_nest (c08_inFlags env) env ks v) with
+  cases mergeStep (mergeF n) sf .list [] scs (k, c08_nest (c08_inFlags env) env ks v) with
   | error e => rfl
   | ok scs' =>
     simp [finishMerge, Node.flags, (c08_hasPrio_doc hs ho true).1, maybePromote, CompKind.sameClass,
@@ -82,14 +82,14 @@ theorem c08_lstep_inplace (rec : Node → Node → Except Err (Node × Bool)) (s
     (scs : List (Key × Node)) (k : Key) (i : Nat) (o c nw : Node)
     (hi : validateIndex scs.length true k = some i) (hl : alookup (.int (i : Int)) scs = some c)
     (hr : rec c o = .ok (nw, true)) (hc : c.isComp = true) (hd : o.flags.del = none) :
-    mergeStep rec sf .list scs (k, o) = .ok (aset (.int (i : Int)) nw scs) := by
+    mergeStep rec sf .list [] scs (k, o) = .ok (aset (.int (i : Int)) nw scs) := by
   simp [mergeStep, getChild, CompKind.isDictFam, hi, hl, hr, hc, hd, replaceChild]
 
 theorem c08_lstep_replace_leaf (rec : Node → Node → Except Err (Node × Bool)) (sf : Flags)
     (scs : List (Key × Node)) (k : Key) (i : Nat) (o c : Node) (f : Flags) (lk : LeafKind)
     (hi : validateIndex scs.length true k = some i) (hl : alookup (.int (i : Int)) scs = some c)
     (hr : rec c o = .ok (.leaf f lk, false)) (hd : o.flags.del = none) (hfd : f.del = none) :
-    mergeStep rec sf .list scs (k, o) = .ok (aset (.int (i : Int)) (adopt sf .list (.leaf f lk)) scs) := by
+    mergeStep rec sf .list [] scs (k, o) = .ok (aset (.int (i : Int)) (adopt sf .list (.leaf f lk)) scs) := by
   have hfd' : (Node.leaf f lk).flags.del = none := hfd
   have hi2 := validateIndex_lax_of_strict hi
   cases hc : c.isComp <;>
@@ -208,7 +208,7 @@ theorem c08_lstep_error (rec : Node → Node → Except Err (Node × Bool)) (sf 
     (scs : List (Key × Node)) (k : Key) (i : Nat) (o c : Node) (e : Err)
     (hi : validateIndex scs.length true k = some i) (hl : alookup (.int (i : Int)) scs = some c)
     (hr : rec c o = .error e) :
-    mergeStep rec sf .list scs (k, o) = .error (e.prepend k) := by
+    mergeStep rec sf .list [] scs (k, o) = .error (e.prepend k) := by
   simp [mergeStep, getChild, CompKind.isDictFam, hi, hl, hr]
 
 theorem c08_override_bad_index (env : Env) (v : Scalar) : ∀ (pre : List Key) (k : Key) (post : List Key)
